@@ -1,3 +1,154 @@
 import HapVerif.Model.C15
+import HapVerif.Lemmas.C15
+import HapVerif.Generated.Facts
+/-!
+# C15 — each TLS host is served with the certificate its Ingress declares, else default
+
+Model: `Sync.fullSync` (tls loop, first assignment wins; `crtOf`: any error reading the secret =
+default certificate), `Sync.crtList` (`WriteFrontendMaps` after repair c836d74), `Sync.sniCrt`
+(HAProxy's crt-list lookup: exact filter, wildcard filter, first line — trusted).
+Spec: `C15.specCrt` over the cluster state.  Hypotheses (decidable): hosts of tls blocks and rules are
+lower case, no tls block names the reserved `<default>`; the SNI name does not start with `*`.
+Not assumed: existing secrets, unique declarations, any relation between namespaces.
+
+The dynamic path (`set ssl cert` / `commit ssl cert` sent to a running HAProxy instead of a reload)
+is not modelled; the harness checks on every history that the running copy equals the file on disk.
+-/
 namespace HapVerif.C15
+open HapVerif.Sync
+open HapVerif.C04 (Str)
+
+/-- **sni_spec** (full strength): for every cluster state and every SNI name the generated
+certificate list selects
+* the certificate of the Secret of the FIRST-created Ingress that declares the host in `spec.tls`
+  (default if that Secret is missing, malformed or forbidden) ,
+* the default certificate for a host that only appears in rules,
+* for a name no Ingress mentions, the certificate of the wildcard host above it, else default. -/
+theorem sni_spec {w : World} (wt : WFTls w = true) (wh : WFHosts w = true) {sni : Str}
+    (hs : WFSni sni = true) : served w sni = specCrt w sni :=
+  served_eq_spec wt wh hs
+
+/-- never another tenant's: whatever is served is the default certificate or the certificate some
+tls declaration resolves to for exactly that host or for the wildcard above an undeclared name -/
+theorem served_cases {w : World} (wt : WFTls w = true) (wh : WFHosts w = true) {sni : Str}
+    (hs : WFSni sni = true) :
+    served w sni = .dflt ∨ declaredCrt w (C04.lower sni) = some (served w sni) ∨
+      (declaredCrt w (C04.lower sni) = none ∧ isRuleHost w (C04.lower sni) = false ∧
+        ∃ wc, wildOf (C04.lower sni) = some wc ∧ declaredCrt w wc = some (served w sni)) := by
+  rw [sni_spec wt wh hs]
+  unfold specCrt
+  simp only
+  cases hd : declaredCrt w (C04.lower sni) with
+  | some c => exact Or.inr (Or.inl rfl)
+  | none =>
+    simp only
+    by_cases hr : isRuleHost w (C04.lower sni) = true
+    · simp [hr]
+    · have hr' : isRuleHost w (C04.lower sni) = false := by simpa using hr
+      simp only [hr', Bool.false_eq_true, if_false]
+      cases hw : wildOf (C04.lower sni) with
+      | none => exact Or.inl rfl
+      | some wc =>
+        simp only
+        cases hdw : declaredCrt w wc with
+        | none => exact Or.inl rfl
+        | some c => exact Or.inr (Or.inr ⟨trivial, trivial, wc, rfl, hdw⟩)
+
+/-- a host with a tls entry whose secret does not resolve, and a host without tls entry, get the
+default certificate -/
+theorem fallback_default {w : World} (wt : WFTls w = true) (wh : WFHosts w = true) {sni : Str}
+    (hs : WFSni sni = true)
+    (h : declaredCrt w (C04.lower sni) = some .dflt ∨
+      (declaredCrt w (C04.lower sni) = none ∧ isRuleHost w (C04.lower sni) = true)) :
+    served w sni = .dflt := by
+  rw [sni_spec wt wh hs]
+  unfold specCrt
+  rcases h with h | ⟨h1, h2⟩
+  · simp [h]
+  · simp [h1, h2]
+
+/-- **rotation_exact**: replacing the content of Secret `ns/name` (new content version `v`) changes
+the served certificate of a name exactly as `rot` says: names served with that secret get the new
+content, every other name keeps its certificate. -/
+theorem rotation_exact {w : World} (wt : WFTls w = true) (wh : WFHosts w = true) (ns name : Str) (v : Nat)
+    {sni : Str} (hs : WFSni sni = true) :
+    served (setSecretVersion w ns name v) sni = rot ns name v (served w sni) := by
+  rw [sni_spec (w := setSecretVersion w ns name v) (by rw [WFTls_setVersion]; exact wt) wh hs,
+    sni_spec wt wh hs, specCrt_setVersion]
+
+/-- the names whose certificate changes are exactly those served with the replaced secret -/
+theorem rotation_changes_iff {w : World} (wt : WFTls w = true) (wh : WFHosts w = true) (ns name : Str)
+    (v : Nat) {sni : Str} (hs : WFSni sni = true) :
+    served (setSecretVersion w ns name v) sni ≠ served w sni ↔
+      ∃ v', served w sni = .secret ns name v' ∧ v' ≠ v := by
+  rw [rotation_exact wt wh ns name v hs]
+  cases served w sni with
+  | dflt => simp [rot]
+  | secret a b v' =>
+    unfold rot
+    by_cases hc : a = ns ∧ b = name
+    · obtain ⟨rfl, rfl⟩ := hc
+      simp only [and_self, if_true, ne_eq, Crt.secret.injEq, true_and]
+      constructor
+      · intro h; exact ⟨v', rfl, fun e => h e.symm⟩
+      · rintro ⟨v'', rfl, hne⟩ e; exact hne e.symm
+    · simp only [hc, if_false, ne_eq, not_true_eq_false, false_iff, not_exists, not_and]
+      intro v'' e
+      simp only [Crt.secret.injEq] at e
+      exact absurd ⟨e.1, e.2.1⟩ hc
+
+/-! ## witnesses -/
+
+def s (x : String) : Str := x.toList
+
+/-- two tenants: namespace `d` owns `*.w.local` with its certificate, namespace `e` declares the exact
+host `x.w.local` without tls entry and `y.w.local` with a missing secret; `a.local` is declared twice
+(the first-created ingress is listed second) -/
+def w1 : World :=
+  { ings := [
+      { ns := s "e", name := s "late", created := 5, valid := true,
+        rules := [⟨s "a.local", []⟩], tls := [⟨[s "a.local"], s "tls2"⟩] },
+      { ns := s "d", name := s "wild", created := 1, valid := true,
+        rules := [⟨s "*.w.local", []⟩, ⟨s "a.local", []⟩],
+        tls := [⟨[s "*.w.local"], s "tls1"⟩, ⟨[s "a.local"], s "tls1"⟩] },
+      { ns := s "e", name := s "exact", created := 2, valid := true,
+        rules := [⟨s "x.w.local", []⟩, ⟨s "y.w.local", []⟩],
+        tls := [⟨[s "y.w.local"], s "missing"⟩, ⟨[s "b.local"], s "d/tls1"⟩] } ],
+    secs := [⟨s "d", s "tls1", true, 1⟩, ⟨s "e", s "tls2", true, 1⟩] }
+
+example : WFTls w1 = true ∧ WFHosts w1 = true ∧ WFSni (s "x.w.local") = true := by decide +kernel
+
+/-- first-created wins; missing and forbidden (cross-namespace) secrets give the default certificate;
+an undeclared name under the wildcard gets the wildcard's certificate -/
+example : served w1 (s "A.local") = .secret (s "d") (s "tls1") 1 ∧
+    served w1 (s "y.w.local") = .dflt ∧ served w1 (s "b.local") = .dflt ∧
+    served w1 (s "zz.w.local") = .secret (s "d") (s "tls1") 1 ∧
+    served w1 (s "unknown.local") = .dflt := by decide +kernel
+
+/-- the defect repaired by c836d74 (replayed on the Go code before the repair, kept in the corpus of
+the harness): the exact host of namespace `e` without tls entry was answered with the wildcard
+certificate of namespace `d`; so was the host whose own secret is missing -/
+theorem wildcard_capture_before_fix :
+    servedBefore w1 (s "x.w.local") = .secret (s "d") (s "tls1") 1 ∧ specCrt w1 (s "x.w.local") = .dflt ∧
+    servedBefore w1 (s "y.w.local") = .secret (s "d") (s "tls1") 1 ∧ specCrt w1 (s "y.w.local") = .dflt ∧
+    wildcardCaptures w1 (s "x.w.local") = true := by decide +kernel
+
+theorem wildcard_capture_fixed :
+    served w1 (s "x.w.local") = .dflt ∧ served w1 (s "y.w.local") = .dflt := by decide +kernel
+
+/-- `sni_spec` applied (hypotheses satisfiable, conclusion about a real lookup) -/
+example : served w1 (s "x.w.local") = specCrt w1 (s "x.w.local") :=
+  sni_spec (by decide +kernel) (by decide +kernel) (by decide +kernel)
+
+/-- rotation on the witness: `a.local` and the names under the wildcard follow `d/tls1`, `e`'s hosts do not move -/
+example : served (setSecretVersion w1 (s "d") (s "tls1") 2) (s "a.local") = .secret (s "d") (s "tls1") 2 ∧
+    served (setSecretVersion w1 (s "d") (s "tls1") 2) (s "zz.w.local") = .secret (s "d") (s "tls1") 2 ∧
+    served (setSecretVersion w1 (s "d") (s "tls1") 2) (s "x.w.local") = .dflt := by decide +kernel
+
+/-- regenerated from the Go source -/
+theorem facts_c15 :
+    Facts.c15DefaultCrtLine = " !*" ∧
+    Facts.c15TLSFirstWins = ["host.TLS.TLSHash==\"\"", "host.TLS.TLSHash!=tlsPath.SHA1Hash"] ∧
+    Facts.c15WildcardRepair = true := by decide
+
 end HapVerif.C15
